@@ -67,7 +67,8 @@ Theorem c32_flags_win : forall profile o r, apply_profile profile o = Ok r ->
   (forall v, o_pow o = Some v -> o_pow r = Some v) /\
   (forall v, o_persistent o = Some v -> o_persistent r = Some v) /\
   (forall v, o_wipe_passes o = Some v -> o_wipe_passes r = Some v) /\
-  (forall v, o_rotation o = Some v -> o_rotation r = Some v).
+  (forall v, o_rotation o = Some v -> o_rotation r = Some v) /\
+  (forall v, o_fetch_parallel o = Some v -> o_fetch_parallel r = Some v).
 Proof. exact flags_win. Qed.
 Print Assumptions c32_flags_win.
 
